@@ -74,6 +74,7 @@ import sys
 import time
 import zlib
 from collections import deque
+from contextlib import suppress
 from collections.abc import Callable, Iterable, Iterator, Mapping, Sequence
 from collections.abc import Set as AbstractSet
 from functools import partial
@@ -97,6 +98,7 @@ from .errors import (
     ObjectFormatException,
     UnexpectedCommandError,
 )
+from .file import FileLocked
 from .object_filters import (
     CombineFilter,
     FilterSpec,
@@ -1512,6 +1514,43 @@ class ReceivePackHandler(PackHandler):
             yield (b"unpack", b"ok")
 
         atomic = self.has_capability(CAPABILITY_ATOMIC)
+        update_exceptions = (*all_exceptions, FileLocked)
+
+        def current_value(ref: Ref) -> ObjectID:
+            try:
+                return self.repo.refs[ref]
+            except KeyError:
+                return zero_sha
+
+        def check_command(oldsha: ObjectID, sha: ObjectID, ref: Ref) -> bytes:
+            """Say whether a command can be applied, without applying it."""
+            if sha == zero_sha:
+                if CAPABILITY_DELETE_REFS not in self.capabilities():
+                    raise GitProtocolError(
+                        "Attempted to delete refs without delete-refs capability."
+                    )
+            elif sha not in self.repo.object_store:
+                # Never let a ref name an object we do not have.
+                return b"missing necessary objects"
+            if current_value(ref) != oldsha:
+                return b"stale info"
+            return b"ok"
+
+        def apply_command(oldsha: ObjectID, sha: ObjectID, ref: Ref) -> bytes:
+            """Apply one command as a compare-and-swap and report its status."""
+            if sha == zero_sha:
+                try:
+                    if not self.repo.refs.remove_if_equals(ref, oldsha):
+                        return b"stale info"
+                except update_exceptions:
+                    return b"failed to delete"
+            else:
+                try:
+                    if not self.repo.refs.set_if_equals(ref, oldsha, sha):
+                        return b"stale info"
+                except update_exceptions:
+                    return b"failed to write"
+            return b"ok"
 
         if atomic:
             # Atomic push: validate all refs first, then apply all or none
@@ -1527,20 +1566,44 @@ class ReceivePackHandler(PackHandler):
                     has_failure = True
                 else:
                     try:
-                        if sha == zero_sha:
-                            if CAPABILITY_DELETE_REFS not in self.capabilities():
-                                raise GitProtocolError(
-                                    "Attempted to delete refs without "
-                                    "delete-refs capability."
-                                )
+                        ref_status = check_command(oldsha, sha, ref)
                     except KeyError:
                         ref_status = b"bad ref"
+                    if ref_status != b"ok":
                         has_failure = True
 
                 ref_results.append((ref, ref_status))
 
+            if not has_failure:
+                # All validations passed; apply all ref updates. Another
+                # writer may still get in between: undo what was applied then.
+                applied: list[tuple[ObjectID, ObjectID, Ref]] = []
+                failed: dict[Ref, bytes] = {}
+                for oldsha, sha, ref in refs:
+                    try:
+                        ref_status = apply_command(oldsha, sha, ref)
+                    except KeyError:
+                        ref_status = b"bad ref"
+                    if ref_status != b"ok":
+                        failed[ref] = ref_status
+                        has_failure = True
+                        break
+                    applied.append((oldsha, sha, ref))
+                if has_failure:
+                    for oldsha, sha, ref in reversed(applied):
+                        with suppress(*update_exceptions, KeyError):
+                            if oldsha == zero_sha:
+                                self.repo.refs.remove_if_equals(ref, sha)
+                            elif sha == zero_sha:
+                                self.repo.refs.add_if_new(ref, oldsha)
+                            else:
+                                self.repo.refs.set_if_equals(ref, sha, oldsha)
+                ref_results = [
+                    (ref, failed.get(ref, b"ok")) for _oldsha, _sha, ref in refs
+                ]
+
             if has_failure:
-                # At least one ref failed validation; fail all refs
+                # At least one ref failed; fail all refs
                 for ref, status in ref_results:
                     if status == b"ok":
                         yield (ref, b"atomic push failed")
@@ -1548,23 +1611,7 @@ class ReceivePackHandler(PackHandler):
                         yield (ref, status)
                 return
 
-            # All validations passed; apply all ref updates
-            for oldsha, sha, ref in refs:
-                ref_status = b"ok"
-                try:
-                    if sha == zero_sha:
-                        try:
-                            self.repo.refs.remove_if_equals(ref, oldsha)
-                        except all_exceptions:
-                            ref_status = b"failed to delete"
-                    else:
-                        try:
-                            self.repo.refs.set_if_equals(ref, oldsha, sha)
-                        except all_exceptions:
-                            ref_status = b"failed to write"
-                except KeyError:
-                    ref_status = b"bad ref"
-                yield (ref, ref_status)
+            yield from ref_results
         else:
             for oldsha, sha, ref in refs:
                 ref_status = b"ok"
@@ -1578,21 +1625,9 @@ class ReceivePackHandler(PackHandler):
                     continue
 
                 try:
-                    if sha == zero_sha:
-                        if CAPABILITY_DELETE_REFS not in self.capabilities():
-                            raise GitProtocolError(
-                                "Attempted to delete refs without "
-                                "delete-refs capability."
-                            )
-                        try:
-                            self.repo.refs.remove_if_equals(ref, oldsha)
-                        except all_exceptions:
-                            ref_status = b"failed to delete"
-                    else:
-                        try:
-                            self.repo.refs.set_if_equals(ref, oldsha, sha)
-                        except all_exceptions:
-                            ref_status = b"failed to write"
+                    ref_status = check_command(oldsha, sha, ref)
+                    if ref_status == b"ok":
+                        ref_status = apply_command(oldsha, sha, ref)
                 except KeyError:
                     ref_status = b"bad ref"
                 yield (ref, ref_status)
